@@ -3,7 +3,9 @@ package checks
 
 import (
 	"bytes"
+	"errors"
 	"fmt"
+	"io"
 	"math"
 	"regexp"
 	"runtime/debug"
@@ -80,6 +82,49 @@ func Interpret(src []byte, opts ...bcl.Option) ImplResult {
 	r.Panic, r.Stack = protect(func() {
 		r.Blocks, r.Binding, r.Err = bcl.Interpret(src, o...)
 	})
+	r.Out, r.Log = out.String(), lg.String()
+	return r
+}
+
+// switchWriter forwards to the buffer of the call at hand, or fails.
+type switchWriter struct {
+	w    io.Writer
+	fail bool
+}
+
+func (s *switchWriter) Write(p []byte) (int, error) {
+	if s.fail || s.w == nil {
+		return 0, errors.New("injected write error")
+	}
+	return s.w.Write(p)
+}
+
+var (
+	reOut, reLog switchWriter
+	reOpts       []bcl.Option
+)
+
+// InterpretReused is Interpret through ONE option slice that is built once per process and reused for
+// every call, the way an application holds its options. Before its first use a few calls are made through
+// it whose output and log writers fail: nothing of that may stick to the option values.
+// (Single goroutine only.)
+func InterpretReused(src []byte) ImplResult {
+	if reOpts == nil {
+		reOpts = []bcl.Option{bcl.OptOutput(&reOut), bcl.OptLogger(&reLog)}
+		reOut.fail, reLog.fail = true, true
+		protect(func() {
+			bcl.Interpret([]byte("print 1\ndef b { x = 1 }\nbind b -> struct\nbind b -> struct\nprint 1 / 0\n"), reOpts...)
+		})
+		protect(func() { bcl.Parse([]byte("var = 1\nprint +\nprint @\n"), "prime", reOpts...) })
+		reOut.fail, reLog.fail = false, false
+	}
+	var r ImplResult
+	var out, lg bytes.Buffer
+	reOut.w, reLog.w = &out, &lg
+	r.Panic, r.Stack = protect(func() {
+		r.Blocks, r.Binding, r.Err = bcl.Interpret(src, reOpts...)
+	})
+	reOut.w, reLog.w = nil, nil
 	r.Out, r.Log = out.String(), lg.String()
 	return r
 }
